@@ -10,6 +10,7 @@
 static const char *T_RT[2] = { "builtin:ecdsa_pub_key_export_be>import_be", "builtin:ecdsa_pub_key_export_le>import_le" };
 static const char *FN[] = { "compressed", "packed", "separate", "concatenated" };
 static const char *PN[] = { "G", "2G", "-G", "O" };
+static const char *T_KGL[2] = { "builtin:ecdsa_key_gen_be/seed-length", "builtin:ecdsa_key_gen_le/seed-length" };
 
 int
 main(int argc, char **argv) {
@@ -65,6 +66,36 @@ main(int argc, char **argv) {
 				vh_fail("roundtrip-not-identity", "different point");
 			else
 				vh_nontrivial();
+		}
+	}
+	/* key generation from a seed of every length 1 .. field size + 2, the seed in a heap block of exactly that size (ASan
+	 * red zones behind it): "reads only within the sizes the caller passed"; a seed that is long enough must give a key
+	 * pair that public-key recovery reproduces */
+	for (i = 0; i < nitems(ec_curve_str); i ++) {
+		if (0 != ecdsa_curve_from_str(&ec_curve_str[i], &curve))
+			continue;	/* reported by the round-trip part above */
+		b = EC_CURVE_CALC_BYTES(&curve);
+		for (le = 0; le < 2; le ++) for (sz = 1; sz <= b + 2; sz ++) {
+			uint8_t *rnd, *priv, *px, *py, *rx, *ry; size_t dsz, psz, rsz;
+			if (!vh_begin(T_KGL[le])) continue;
+			vh_desc("curve=%s seed of %zu bytes (field %zu bytes) digit_bits=%d", ec_curve_str[i].name, sz, b, (int)BN_DIGIT_BITS);
+			rnd = (uint8_t *)malloc(sz); memset(rnd, 0, sz); rnd[sz / 2] = 0x5a; rnd[le ? 0 : sz - 1] |= 0x03;
+			priv = (uint8_t *)malloc(b); px = (uint8_t *)malloc(b + 1); py = (uint8_t *)malloc(b + 1); rx = (uint8_t *)malloc(b + 1); ry = (uint8_t *)malloc(b + 1);
+			dsz = 7777; psz = 7777;
+			rc = le ? ecdsa_key_gen_le(&curve, rnd, sz, 0, priv, &dsz, px, py, &psz) : ecdsa_key_gen_be(&curve, rnd, sz, 0, priv, &dsz, px, py, &psz);
+			if (sz >= b) {
+				if (0 != rc) vh_fail("keygen-refused", "a seed of %zu bytes for a %zu-byte field refused rc=%d", sz, b, rc);
+				else if (dsz != b) vh_fail("keygen-size", "private key size %zu, field %zu bytes", dsz, b);
+				else {
+					rsz = 7777;
+					rc = le ? ecdsa_recover_pub_key_from_priv_key_le(&curve, priv, dsz, 0, rx, ry, &rsz) : ecdsa_recover_pub_key_from_priv_key_be(&curve, priv, dsz, 0, rx, ry, &rsz);
+					if (0 != rc || rsz != psz || 0 != memcmp(rx, px, b) || 0 != memcmp(ry, py, b))
+						vh_fail("keygen-recover-disagree", "public key recovered from the generated private key differs (rc=%d)", rc);
+					else vh_nontrivial();
+				}
+			} else
+				vh_nontrivial();	/* shorter than the field: refused today; whatever the answer, nothing behind the seed may be read (ASan) */
+			free(rnd); free(priv); free(px); free(py); free(rx); free(ry);
 		}
 	}
 	return (vh_finish());
